@@ -1326,12 +1326,10 @@ def known_uids(spec, ops):
 
 
 def extra_state(graph):
-    """user attributes that views do not show (and the structural identifier where it cannot hold uuid4 uids)"""
+    """user attributes that views do not show"""
     st = {'topology': getattr(graph, 'topology', None), 'technology': getattr(graph, 'technology', None),
           'nodes': [(getattr(n, 'catalog_key', None), getattr(n, 'dialog', None), getattr(n, 'unit', None))
                     for n in graph.nodes]}
-    if isinstance(graph, C11TopoGraph):
-        st['descriptive_id'] = _try(lambda: graph.descriptive_id)
     return st
 
 
@@ -1516,13 +1514,13 @@ def run_lockstep(ctx):
     for spec, seed, via_ind in gen_lock_specs(ctx):
         ops = lock_ops(spec, seed)
         vo, vl, steps, meta_same = lock_run(spec, ops, via_ind)
-        post = bool(spec.get('post'))
+        post = bool(spec.get('post') or spec.get('attrs'))
         cases.append(lock_case(vo, vl, steps, meta_same, post))
         meta.append((spec, ops, via_ind, vo, vl, steps))
     # canary: the last observed view of the loaded copy is falsified
     for spec, ops, via_ind, vo, vl, steps in meta:
         if steps and steps[-1][2] is not None and steps[-1][1] is not None:
-            cases.append(lock_case(vo, vl, steps, True, bool(spec.get('post')), tamper=True))
+            cases.append(lock_case(vo, vl, steps, True, bool(spec.get('post') or spec.get('attrs')), tamper=True))
             ctx.canaries += 1
             break
     res = eval_cases(ctx, 'lockstep', FN_LOCK, cases, 2, per_shard=120)
@@ -1534,7 +1532,7 @@ def run_lockstep(ctx):
         dup = any(len(set(x[3])) != len(x[3]) for st in steps for v in st[1:] if v for x in v)
         for op, a, b in steps:
             ctx.count('lockstep', key=(view_key(vo), json.dumps(ops, sort_keys=True)), nontrivial=True, op=op[0],
-                      raised=(a is None), modelled=(c_op(op, bool(spec.get('post'))) != 'OOther'),
+                      raised=(a is None), modelled=(c_op(op, bool(spec.get('post') or spec.get('attrs'))) != 'OOther'),
                       duplicate_links=dup, user_postprocess=bool(spec.get('post')), graph_class=spec['kind'],
                       user_coders=bool(spec.get('user')), via_individual=via_ind,
                       journal_graph=bool(spec.get('journal') or spec.get('user')),
@@ -1550,6 +1548,126 @@ def run_lockstep(ctx):
             sampled += 1
             ctx.sample({'group': 'lockstep', 'spec': spec, 'ops': ops,
                         'views_equal_after_every_step': r[1], 'model_agrees': r[0]})
+
+
+# ------------------------------------------------------------------------------------------
+# group: reload (one saved text loaded several times in one process while the defining module of a user node
+# class is unimportable / importable / reloaded; every load is judged on its own)
+# ------------------------------------------------------------------------------------------
+USER_MODULE_SOURCE = '''
+from golem.core.optimisers.graph import OptNode
+
+
+class DomainNode(OptNode):
+    """node of a user's domain: the unit of the node is a part of its description"""
+
+    def __init__(self, content, nodes_from=None, unit='m'):
+        super().__init__(content, nodes_from)
+        self.unit = unit
+
+    def description(self):
+        return '%s[%s]' % (super().description(), self.unit)
+'''
+_MODULE_COUNTER = [0]
+
+
+def reload_scenario(spec, loads, via_individual):
+    """spec: graph spec (nodes become DomainNode objects of a fresh temporary module); loads: list of
+    'visible' | 'hidden' | 'reloaded'.  Returns [(state, vo, vl, flag)], one entry per load."""
+    import importlib
+    import os
+    import shutil
+    import sys
+    import tempfile
+    _MODULE_COUNTER[0] += 1
+    name = 'c11_user_domain_%d_%d' % (os.getpid(), _MODULE_COUNTER[0])
+    user_dir = tempfile.mkdtemp(prefix='c11_user_pkg_')
+    out = []
+    try:
+        with open(os.path.join(user_dir, name + '.py'), 'w') as f:
+            f.write(USER_MODULE_SOURCE)
+        sys.path.insert(0, user_dir)
+        importlib.invalidate_caches()
+        module = importlib.import_module(name)
+        cls = module.DomainNode
+        objs = []
+        for j, ns in enumerate(spec['nodes']):
+            n = cls(materialise_content(ns['content']), unit=['m', 'kg', 's'][j % 3])
+            n.uid = ns['uid']
+            objs.append(n)
+        for ns, n in zip(spec['nodes'], objs):
+            n.nodes_from = [objs[p] for p in ns['parents']]
+        graph = OptGraph()
+        graph.nodes = [objs[i] for i in spec['order']]
+        saved_obj = Individual(graph, fitness=SingleObjFitness(0.5), native_generation=1) if via_individual else graph
+        text = saved_obj.save() if via_individual else dumps(graph)
+        known = {ns['uid'] for ns in spec['nodes']}
+        vo = view(graph, known, {})
+        hidden = None
+        for state in loads:
+            if state == 'hidden' and hidden is None:
+                sys.path.remove(user_dir)
+                hidden = sys.modules.pop(name)
+                importlib.invalidate_caches()
+            elif state != 'hidden' and hidden is not None:
+                sys.path.insert(0, user_dir)
+                sys.modules[name] = hidden
+                hidden = None
+                importlib.invalidate_caches()
+            if state == 'reloaded':
+                module = importlib.reload(module)
+            lr = _try(lambda: Individual.load(text).graph if via_individual else json.loads(text, cls=Serializer))
+            if lr[0] != 'ok':
+                out.append((state, vo, sentinel('LOAD-RAISED-' + str(lr[1])), False))
+                continue
+            loaded = lr[1]
+            vl = safe_view(loaded, known, {})
+            if state == 'hidden':
+                # documented fallback: base nodes; only ids, names, parameters and edges (the view) are demanded
+                flag = True
+            else:
+                want = module.DomainNode
+                flag = (_try(lambda: all(type(n) is want for n in loaded.nodes)) == ('ok', True) and
+                        _try(lambda: [n.unit for n in loaded.nodes]) == ('ok', [n.unit for n in graph.nodes]) and
+                        _try(lambda: loaded.descriptive_id) == _try(lambda: graph.descriptive_id) and
+                        _try(lambda: (graph == loaded, loaded == graph)) == ('ok', (True, True)) and
+                        _try(lambda: dumps(loaded) == dumps(graph)) == ('ok', True))
+            out.append((state, vo, vl, flag))
+    finally:
+        if user_dir in sys.path:
+            sys.path.remove(user_dir)
+        sys.modules.pop(name, None)
+        shutil.rmtree(user_dir, ignore_errors=True)
+        importlib.invalidate_caches()
+    return out
+
+
+RELOAD_ORDERS = [['hidden', 'visible', 'reloaded'], ['visible', 'hidden', 'visible', 'reloaded'],
+                 ['hidden', 'hidden', 'visible'], ['visible', 'reloaded', 'hidden', 'visible']]
+
+
+def run_reload(ctx):
+    rng = ctx.rng
+    n = ctx.budget(24, 200)
+    cases, meta = [], []
+    specs = [sp for _, sp in gen_graph_specs_small(ctx, n)]
+    for i, spec in enumerate(specs):
+        for ns in spec['nodes']:
+            if 'name' not in ns['content']:
+                ns['content']['name'] = rng.choice(NAMES)     # the structural identifier then holds no uid
+        spec['kind'] = 'opt'
+        loads = RELOAD_ORDERS[i % len(RELOAD_ORDERS)]
+        via = (i % 3 == 1)
+        for k, (state, vo, vl, flag) in enumerate(reload_scenario(spec, loads, via)):
+            cases.append(lock_case(vo, vl, [], flag))
+            meta.append((spec, loads, via, k, state))
+    res = eval_cases(ctx, 'reload', FN_LOCK, cases, 2, per_shard=120)
+    for (spec, loads, via, k, state), r in zip(meta, res):
+        ctx.count('reload', key=(json.dumps(spec, sort_keys=True), tuple(loads), k), nontrivial=True, module_state=state,
+                  load_number=k + 1, via_individual=via)
+        if not r[1]:
+            ctx.violate('reload', {'group': 'reload', 'spec': spec, 'loads': loads, 'via_individual': via, 'failing_load': k},
+                        'load number %d of one saved text (module %s) does not give back the saved graph' % (k + 1, state))
 
 
 # ------------------------------------------------------------------------------------------
@@ -1582,11 +1700,12 @@ def run(ctx):
     run_individuals(ctx)
     run_json_load(ctx)
     run_lockstep(ctx)
+    run_reload(ctx)
 
 
 def replay_cases(ctx, cases):
     """re-observes stored cases (replay files, corpus) and evaluates them, one coqc call per group"""
-    by = {'graphs': [], 'individuals': [], 'lockstep': []}
+    by = {'graphs': [], 'individuals': [], 'lockstep': [], 'reload': []}
     for case in cases:
         if isinstance(case, dict) and case.get('group') in by:
             by[case['group']].append(case)
@@ -1614,18 +1733,33 @@ def replay_cases(ctx, cases):
             for ok, what in zip(r[1:], IND_CLAUSES):
                 if not ok:
                     ctx.violate('replay', case, what)
+    if by['reload']:
+        replay_reload(ctx, by['reload'])
     if by['lockstep']:
         terms = []
         for case in by['lockstep']:
             ops = [tuple(o) for o in case['ops']]
             vo, vl, steps, meta_same = lock_run(case['spec'], ops, case.get('via_individual', False))
-            terms.append(lock_case(vo, vl, steps, meta_same, bool(case['spec'].get('post'))))
+            terms.append(lock_case(vo, vl, steps, meta_same, bool(case['spec'].get('post') or case['spec'].get('attrs'))))
         for case, r in zip(by['lockstep'], ctx.coq_cases('replay', REQ, FN_LOCK, terms, 2, preamble=PRE)):
             ctx.count('replay', key=json.dumps(case, sort_keys=True), nontrivial=True, kind='lockstep')
             if not r[0]:
                 ctx.disagree('replay', case, 'model of the editing operations differs from the implementation')
             if not r[1]:
                 ctx.violate('replay', case, 'the loaded copy and the original differ after the same editing operations')
+
+
+def replay_reload(ctx, cases):
+    terms, meta = [], []
+    for case in cases:
+        for k, (state, vo, vl, flag) in enumerate(reload_scenario(case['spec'], case['loads'], case.get('via_individual', False))):
+            terms.append(lock_case(vo, vl, [], flag))
+            meta.append((case, k, state))
+    for (case, k, state), r in zip(meta, ctx.coq_cases('replay', REQ, FN_LOCK, terms, 2, preamble=PRE)):
+        ctx.count('replay', key=(json.dumps(case, sort_keys=True), k), nontrivial=True, kind='reload')
+        if not r[1]:
+            ctx.violate('replay', dict(case, failing_load=k),
+                        'load number %d of one saved text (module %s) does not give back the saved graph' % (k + 1, state))
 
 
 def replay(ctx, payload):
